@@ -170,6 +170,40 @@ impl Tracker {
             out.push(Viol::new("C12/tx/mf-flag/df-set-on-fragment", describe(&f)));
         }
         let (a, b) = (f.off, f.off + f.payload.len());
+        // An unfragmented packet (MF=0, offset 0) is a whole datagram by itself: its
+        // identification carries no meaning (RFC 6864; smoltcp emits id 0 + DF for all of them),
+        // so it is never grouped with other packets by id.
+        let atomic = !f.mf && f.off == 0;
+        if atomic {
+            let cand = self.exps.iter().position(|e| e.key.is_none() && e.proto == f.key.2 && e.matches(&f));
+            match cand {
+                Some(ei) => {
+                    let e = &mut self.exps[ei];
+                    e.key = Some(f.key);
+                    e.add_cov(a, b);
+                    e.frags.push(f);
+                }
+                None => {
+                    // same length as an outstanding datagram of this protocol => corrupted copy of it
+                    let near = self.exps.iter().position(|e| e.key.is_none() && e.proto == f.key.2 && e.image.len() == b);
+                    match near {
+                        Some(ei) => {
+                            let e = &mut self.exps[ei];
+                            let (cause, text) = e.diff(&f);
+                            e.key = Some(f.key);
+                            e.corrupt = true;
+                            out.push(Viol::new(format!("C12/tx/identical/{}", cause), format!("{} ({}): {}", e.label, describe(&f), text)));
+                            e.frags.push(f);
+                        }
+                        None => out.push(Viol::new(
+                            "C12/tx/once/frame-of-no-outstanding-datagram",
+                            format!("{} (unfragmented) belongs to no datagram that is still outstanding (duplicate of a completed one, or never accepted); payload {}", describe(&f), hex(&f.payload[..f.payload.len().min(32)])),
+                        )),
+                    }
+                }
+            }
+            return;
+        }
         if let Some(&ei) = self.bind.get(&f.key) {
             // continuation of a datagram already on the wire
             let e = &mut self.exps[ei];
